@@ -265,7 +265,8 @@ class C16(Prop):
         "quicksort_sorts", "quicksort_decreasing_weights", "idFilterAdv_keeps_preferred", "idFilterAdv_conscover", "idFilterAdv_random",
         "idFilterAdv_origorder", "consensus_by_all_selects", "consensus_by_rf_selects", "consensus_by_sample_selects",
         "pbAdv_consensus_cascade", "average_sampling_in_bounds", "average_all_empty", "linkage_additive_ultrametric", "idFilterAdv_consensus_cascade", "linkage_cladesizes_root", "fragment_rule_documented", "pairId_text_digital_agree", "pairId_text_digital_agree_dna", "msaSingleLinkage_one_cluster_at_zero", "idFilterText_keeps_first_at_zero", "blosum_all_one_at_zero", "idFilterDigital_keeps_top_at_zero",
-        "gsc_tieRule_family_contains_code", "gsc_tieRule_irrelevant_without_ties", "gsc_no_tieRule_is_relisting_invariant")]
+        "gsc_tieRule_family_contains_code", "gsc_tieRule_irrelevant_without_ties", "gsc_no_tieRule_is_relisting_invariant", "gsc_sum_nonneg_any_join_order",
+        "simulate_roll_names_active_branch", "simulate_invariant", "simulate_step_in_bounds", "simulate_finish_in_bounds")]
     claimed = True
     technique = ("Lean 4 proof over the exact (Q) instance of a numeric-class-polymorphic executable model of esl_distance/esl_cluster/"
                  "esl_msacluster/esl_quicksort/esl_msaweight/esl_tree(UPGMA) + bit-exact differential correspondence of the Float instance "
@@ -1541,6 +1542,8 @@ class C16(Prop):
         if f["cmpself"] != "ok": return "esl_tree_Compare(T, T) = %s" % f["cmpself"]
         if f["cmp2"] != f["cmp"]: return "Compare with the second tree gives %s before and %s after renumbering" % (f["cmp"], f["cmp2"])
         if link2 == link and f["cmp"] != "ok": return "Compare with the tree built again in the same mode = %s" % f["cmp"]
+        same = self._clades(n, left, right) == self._clades(n, il("l2"), il("r2"))
+        if (f["cmp"] == "ok") != same: return "esl_tree_Compare says %s, the two trees have %s clade sets" % (f["cmp"], "the same" if same else "different")
         if f["vu2"] != f["vu"]: return "VerifyUltrametric gives %s before and %s after renumbering" % (f["vu"], f["vu2"])
         if link < 2 and nonneg and finite and f["vu"] != "ok": return "the additive tree of non-negative distances is reported not ultrametric (%s)" % f["vu"]
         if sorted(cs) != sorted(len(c) for c in self._clades(n, left, right)) and len(self._clades(n, left, right)) == n - 1:
